@@ -11,11 +11,17 @@ TMP="$(mktemp -d /tmp/rs2v_selftest.XXXXXX)"
 trap 'rm -rf "$TMP"' EXIT
 
 FILES="src/action_value.rs src/input_context/events.rs src/input_context/context_instance.rs src/input_context/context_instance/trigger_tracker.rs"
+for f in "$REPO"/src/input_context/input_condition/*.rs "$REPO"/src/input_context/input_modifier/*.rs; do
+  FILES="$FILES ${f#$REPO/}"
+done
 
 # the compiled model files the tie needs
+MODEL="Model/Num Model/Value Model/State Model/Tracker Model/Cond Model/Modif Proofs/ValueP"
+# compile order of the regenerated files and the tie files
+CHAIN="Generated/GlamTbl Generated/ValueSrc Generated/EventsSrc Generated/TrackerSrc Proofs/SrcTieP Generated/DataSrc Generated/CondSrc Generated/GlamTbl2 Generated/ModifSrc Proofs/SrcTie2P"
 ( cd "$COQ" && [ -f Makefile ] || coq_makefile -f _CoqProject -o Makefile >/dev/null 2>&1
-  cd "$COQ" && timeout 1500 make Model/Tracker.vo Proofs/ValueP.vo >/dev/null 2>&1 )
-for f in Model/Num Model/Value Model/State Model/Tracker Proofs/ValueP; do
+  cd "$COQ" && timeout 1500 make Model/Modif.vo Proofs/ValueP.vo Proofs/SrcTie2P.vo >/dev/null 2>&1 )
+for f in $MODEL; do
   [ -f "$COQ/$f.vo" ] || { echo "missing $COQ/$f.vo (build the development first)"; exit 1; }
 done
 
@@ -35,19 +41,27 @@ open(path, 'w').write(s.replace(old, new))
 EOF
 }
 
-# tie_compiles GENDIR : 0 if the generated files and SrcTieP.v compile together
+# tie_compiles GENDIR : 0 if the generated files and the tie files compile together.
+# Files of the chain are recompiled from the first one whose text differs from coq/ (or has no .vo there).
 tie_compiles() {
-  local W="$TMP/coqwork"
+  local W="$TMP/coqwork" dirty=no
   rm -rf "$W"; mkdir -p "$W/Model" "$W/Proofs" "$W/Generated"
-  for f in Model/Num Model/Value Model/State Model/Tracker Proofs/ValueP; do cp "$COQ/$f.vo" "$W/$f.vo"; done
-  cp "$COQ/Proofs/SrcTieP.v" "$W/Proofs/"
+  for f in $MODEL; do cp "$COQ/$f.vo" "$W/$f.vo"; done
+  cp "$COQ/Proofs/SrcTieP.v" "$COQ/Proofs/SrcTie2P.v" "$W/Proofs/"
   cp "$1"/*.v "$W/Generated/"
-  ( cd "$W" && for f in Generated/GlamTbl Generated/ValueSrc Generated/EventsSrc Generated/TrackerSrc Proofs/SrcTieP; do
-      timeout 300 coqc -q -Q . BEI -w -notation-overridden "$f.v" >"$W/log" 2>&1 || { STAGE="$f"; echo "$f" >"$W/stage"; exit 1; }
-    done )
+  for f in $CHAIN; do
+    [ -f "$W/$f.v" ] || continue
+    if [ "$dirty" = no ] && [ -f "$COQ/$f.vo" ] && cmp -s "$W/$f.v" "$COQ/$f.v"; then cp "$COQ/$f.vo" "$W/$f.vo"; continue; fi
+    dirty=yes
+    ( cd "$W" && timeout 300 coqc -q -Q . BEI -w -notation-overridden "$f.v" >"$W/log" 2>&1 ) || { echo "$f" >"$W/stage"; return 1; }
+  done
 }
 
 # ---- baseline
+if [ -d "$REPO/.git" ] && ! git -C "$REPO" diff --quiet HEAD -- src 2>/dev/null; then
+  echo "note: the working tree of $REPO differs from its HEAD under src/ (somebody is editing it); to test the committed sources:"
+  echo "      mkdir /tmp/repo_head && git -C $REPO archive HEAD src | tar -x -C /tmp/repo_head && $0 /tmp/repo_head"
+fi
 fresh_src "$TMP/base"
 python3 "$RS2V" --repo "$TMP/base" --out "$TMP/gen_base" 2>"$TMP/err" || { echo "baseline: rs2v.py failed: $(cat "$TMP/err")"; exit 1; }
 if tie_compiles "$TMP/gen_base"; then echo "baseline: translated=yes tie-compiles=yes"; else
@@ -56,11 +70,12 @@ if [ -d "$COQ/Generated" ] && diff -rq "$TMP/gen_base" "$COQ/Generated" --exclud
   echo "baseline: coq/Generated is up to date with $REPO"; else echo "baseline: coq/Generated differs from a fresh translation of $REPO"; fi
 
 FAIL=0
-# run_edit NAME FILE OLD NEW
+# run_edit NAME FILE OLD NEW [OLD2 NEW2]
 run_edit() {
   local name="$1" file="$2"
   fresh_src "$TMP/src"
   edit "$TMP/src/$file" "$3" "$4" || { echo "edit $name: COULD NOT APPLY"; FAIL=1; return; }
+  if [ $# -ge 6 ]; then edit "$TMP/src/$file" "$5" "$6" || { echo "edit $name: COULD NOT APPLY"; FAIL=1; return; }; fi
   rm -rf "$TMP/gen"
   if ! python3 "$RS2V" --repo "$TMP/src" --out "$TMP/gen" 2>"$TMP/err"; then
     echo "edit $name: rs2v.py failed: $(grep -v conda "$TMP/err")"; FAIL=1; return; fi
@@ -94,6 +109,46 @@ run_edit state-or-to-and "$TT" '(!self.found_explicit || self.any_explicit_fired
 run_edit as_bool-zero-constant "$AV" 'Self::Axis1D(value) => value != 0.0,' 'Self::Axis1D(value) => value != 1.0,'
 run_edit evaluate-argument "$TT" 'condition.evaluate(actions, time, self.value);' 'condition.evaluate(actions, time, self.value.convert(ActionValueDim::Bool));'
 
+# ---- second wave: ActionData::update, condition timer, built-in conditions
+CD=src/input_context/input_condition
+run_edit data-elapsed-reset "$CI" 'self.elapsed_secs = 0.0;' 'self.elapsed_secs += 0.0;'
+run_edit data-events-from-new-state "$CI" 'ActionEvents::new(self.state, state);' 'ActionEvents::new(state, state);'
+run_edit data-fired-minus "$CI" 'self.fired_secs += time.delta_secs();' 'self.fired_secs -= time.delta_secs();'
+run_edit timer-guard "$CD/condition_timer.rs" 'if scale != 0.0 {' 'if scale == 0.0 {'
+run_edit timer-div-to-mul "$CD/condition_timer.rs" 'timer.delta_secs() / scale' 'timer.delta_secs() * scale'
+run_edit timer-relative-negated "$CD/condition_timer.rs" 'let scale = if self.relative_speed {' 'let scale = if !self.relative_speed {'
+run_edit press-state "$CD/press.rs" 'ActionState::Fired\n        } else {' 'ActionState::Ongoing\n        } else {'
+run_edit press-negated "$CD/press.rs" 'if value.is_actuated(self.actuation) {' 'if !value.is_actuated(self.actuation) {'
+run_edit just_press-drop-negation "$CD/just_press.rs" 'self.actuated && !previously_actuated' 'self.actuated && previously_actuated'
+run_edit just_press-memory "$CD/just_press.rs" 'self.actuated = value.is_actuated(self.actuation);' 'self.actuated = !value.is_actuated(self.actuation);'
+run_edit release-negated "$CD/release.rs" '} else if previously_actuated {' '} else if !previously_actuated {'
+run_edit release-state "$CD/release.rs" '// Ongoing on hold.\n            ActionState::Ongoing' '// Ongoing on hold.\n            ActionState::Fired'
+run_edit hold-ge-to-gt "$CD/hold.rs" 'self.timer.duration() >= self.hold_time' 'self.timer.duration() > self.hold_time'
+run_edit hold-or-to-and "$CD/hold.rs" 'is_first_trigger || !self.one_shot' 'is_first_trigger && !self.one_shot'
+run_edit hold_and_release-and-to-or "$CD/hold_and_release.rs" 'previously_actuated && held_duration >= self.hold_time' 'previously_actuated || held_duration >= self.hold_time'
+run_edit hold_and_release-drop-reset "$CD/hold_and_release.rs" 'self.timer.reset();\n            // Trigger' '// Trigger'
+run_edit tap-le-to-lt "$CD/tap.rs" 'last_held_duration <= self.release_time' 'last_held_duration < self.release_time'
+run_edit tap-ge-to-gt "$CD/tap.rs" 'self.timer.duration() >= self.release_time' 'self.timer.duration() > self.release_time'
+run_edit pulse-count-constant "$CD/pulse.rs" 'self.trigger_count + 1' 'self.trigger_count + 2'
+run_edit pulse-limit-test "$CD/pulse.rs" 'self.trigger_limit == 0 ||' 'self.trigger_limit != 0 ||'
+run_edit chord-kind "$CD/chord.rs" 'ConditionKind::Implicit\n' 'ConditionKind::Explicit\n'
+run_edit chord-missing-state "$CD/chord.rs" 'ActionState::None\n        }\n    }\n\n    fn kind' 'ActionState::Fired\n        }\n    }\n\n    fn kind'
+run_edit block_by-eq-to-ne "$CD/block_by.rs" 'if action.state() == ActionState::Fired {' 'if action.state() != ActionState::Fired {'
+run_edit block_by-kind-negated "$CD/block_by.rs" 'events_only: self.events_only,' 'events_only: !self.events_only,'
+
+# ---- second wave: modifiers
+MD=src/input_context/input_modifier
+run_edit scale-x-to-y "$MD/scale.rs" 'ActionValue::Axis1D(value) => (value * self.factor.x).into(),' 'ActionValue::Axis1D(value) => (value * self.factor.y).into(),'
+run_edit scale-mul-to-add "$MD/scale.rs" '(value * self.factor.xy()).into()' '(value + self.factor.xy()).into()'
+run_edit delta_scale-mul-to-div "$MD/delta_scale.rs" 'ActionValue::Axis1D(value) => (value * time.delta_secs()).into(),' 'ActionValue::Axis1D(value) => (value / time.delta_secs()).into(),'
+run_edit delta_scale-bool-negated "$MD/delta_scale.rs" 'let value = if value { 1.0 } else { 0.0 };' 'let value = if !value { 1.0 } else { 0.0 };'
+run_edit accumulate-eq-to-ne "$MD/accumulate_by.rs" 'if action.state() == ActionState::Fired {' 'if action.state() != ActionState::Fired {'
+run_edit accumulate-pluseq-to-eq "$MD/accumulate_by.rs" 'self.value += value.as_axis3d();' 'self.value = value.as_axis3d();'
+run_edit dead_zone-max-to-min "$MD/dead_zone.rs" '.max(0.0);' '.min(0.0);'
+run_edit dead_zone-axis "$MD/dead_zone.rs" 'value.y = self.dead_zone(value.y);\n                    value.into()' 'value.y = self.dead_zone(value.x);\n                    value.into()'
+run_edit dead_zone-kind-order "$MD/dead_zone.rs" '    #[default]\n    Radial,' '    #[default]\n    Axial,' '    Axial,\n}' '    Radial,\n}'
+run_edit dead_zone-snap-literal "$MD/dead_zone.rs" 'scaled_value.min(1.0)' 'scaled_value.min(0.5)'
+
 # ---- outside the subset: must be reported, not guessed
 run_unsupported() {
   local name="$1" file="$2"
@@ -109,6 +164,8 @@ run_unsupported unsupported-if-let "$TT" 'if self.blocked {' 'if let true = self
 run_unsupported unsupported-closure "$AV" 'Self::Axis3D(value) => value.xy(),' 'Self::Axis3D(value) => (|v: Vec3| v.xy())(value),'
 run_unsupported unsupported-unknown-method "$AV" 'Self::Axis1D(value) => value != 0.0,' 'Self::Axis1D(value) => value.is_normal(),'
 run_unsupported unsupported-new-variant "$CI" '    Fired,\n}' '    Fired,\n    Paused,\n}'
+run_unsupported unsupported-while-loop "$CD/pulse.rs" 'self.timer.reset();\n\n            self.trigger_count = 0;' 'self.timer.reset();\n            while self.trigger_count > 0 { self.trigger_count = 0; }'
+run_unsupported unsupported-lost-mutation "$CD/hold.rs" 'let is_first_trigger = !self.fired;' 'let is_first_trigger = if self.fired { self.fired = false; false } else { true };'
 run_unsupported unsupported-extra-loop-statement "$TT" '        for condition in conditions {' '        self.blocked = false;\n        for condition in conditions {'
 
 if [ "$FAIL" = 0 ]; then echo "selftest: PASS"; else echo "selftest: FAIL"; exit 1; fi
